@@ -522,7 +522,8 @@ class Runner:
             'clang-14 -O1 IR is the code under test; ir2c.py translation (validated natively per run); cbmc 6.11 and its back ends; rt/ models',
             'operator new never fails; wrappers built with -DNDEBUG as the baseline RelWithDebInfo test build']
         os.makedirs(os.path.join(OUT, 'evidence'), exist_ok=True)
-        json.dump(ev, open(os.path.join(OUT, 'evidence', self.id + '.json'), 'w'), indent=1)
+        # a run restricted with --only is a development aid: it must not replace the evidence of the full check
+        json.dump(ev, open(os.path.join(OUT, 'evidence', self.id + ('.partial' if self.only else '') + '.json'), 'w'), indent=1)
         self.say('[%s] tier=%s obligations=%d passed=%d violations=%d inconclusive=%d solver=%.0fs wall=%.0fs' %
                  (self.id, self.tier, len(results), ev['coverage']['discharged'], len(violations), len(inconclusive), solver_s, wall))
         if not self.keep and not violations and not inconclusive:
